@@ -1621,10 +1621,16 @@ func scenHighTermRestart(x *Ctx) {
 		x.Inconclusive("%s (term %d) is not ahead of the leader (term %d)", a, ta, tb)
 		return
 	}
-	x.Step("restart %s (term %d, short log); crash leader %s (term %d); heal: no more faults", a, ta, b, tb)
-	x.C.Node(a).Crash("highterm")
-	x.C.Node(a).WaitDown(time.Second)
-	x.C.Node(a).Restart()
+	if r.Intn(2) == 0 {
+		x.Step("restart %s (term %d, short log); crash leader %s (term %d); heal: no more faults", a, ta, b, tb)
+		x.C.Node(a).Crash("highterm")
+		x.C.Node(a).WaitDown(time.Second)
+		x.C.Node(a).Restart()
+	} else {
+		// not restarted: it is still a candidate and goes on sending real vote requests with its short log
+		x.Step("%s stays a candidate (term %d, short log); crash leader %s (term %d); heal: no more faults", a, ta, b, tb)
+		x.NT("stale-candidate-not-restarted")
+	}
 	x.C.Node(b).Crash("highterm")
 	x.C.Node(b).WaitDown(time.Second)
 	x.C.Net.Heal()
